@@ -39,6 +39,20 @@ pub fn generate(g: &mut Gen, thorough: bool) {
             }
         }
     }
+    // laea in its polar and equatorial aspects, the projection centre among the points
+    for lat_0 in [90.0, -90.0, 0.0] {
+        for _ in 0..(rounds / 4).max(1) {
+            let d0 = proj::random(&mut g.rng, "laea");
+            let d = ProjDef { lat_0: Some(lat_0), centre: (d0.lon_0, (lat_0 as f64).clamp(-60.0, 60.0)), extent: (60.0, 28.0), ..d0 };
+            let mut pts = proj::points(&mut g.rng, &d, 6);
+            pts.push([d.lon_0.to_radians(), (lat_0 as f64).to_radians(), 0.0, 0.0]);
+            pts.push([(d.lon_0 + 33.0).to_radians(), (lat_0 as f64).to_radians(), 5.0, 2000.0]);
+            let def = d.def();
+            g.push(op_line("default", &[], &[], &def, "apply", "F", &data_of(&pts)), "model-laea-aspects", true);
+            pair(g, "origin", &def, &d.def_with(&d.ellps, d.lon_0, d.k_0, 0.0, 0.0), &[d.x_0, d.y_0], &pts, "oracle-origin-laea-aspects");
+            pair(g, "lon0", &def, &d.def_with(&d.ellps, 0.0, d.k_0, d.x_0, d.y_0), &[d.lon_0], &pts, "oracle-lon0-laea-aspects");
+        }
+    }
     // utm / butm against their definitions
     for _ in 0..(if thorough { 600 } else { 60 }) {
         for (derived, base) in [("utm", "tmerc"), ("butm", "btmerc")] {
